@@ -616,6 +616,47 @@ def check_geom(o):
     mesh, _ = _mesh("TriMesh", o["m"])
     d = mesh.n_dims
     areas, el, N = _geom_clauses(mesh, g, bad)
+    # the same mesh with its (whole-number) coordinates stored as integers, or in single precision, has the same geometry
+    P0 = np.asarray(mesh.points)
+    forms = [("float32", np.float32, 1e-5)]
+    if np.array_equal(P0, np.round(P0)):
+        forms += [("int64", np.int64, 1e-9), ("int32", np.int32, 1e-9)]
+    for fname, dt, tol in forms:
+        m3, _ = _mesh("TriMesh", o["m"], pts_dtype=dt)
+        try:
+            same_geom = np.allclose(np.asarray(m3.tri_areas(), dtype=float), areas, rtol=tol, atol=tol) and \
+                np.allclose(np.asarray(m3.edge_lengths(), dtype=float), el, rtol=tol, atol=tol)
+            if d == 3 and same_geom:
+                used = np.unique(mesh.trilist)
+                same_geom = np.allclose(np.asarray(m3.tri_normals(), dtype=float), mesh.tri_normals(), atol=max(tol, 1e-6)) and \
+                    np.allclose(np.asarray(m3.vertex_normals(), dtype=float)[used], mesh.vertex_normals()[used], atol=max(tol, 1e-6))
+        except Exception as e:
+            bad.append(("geometry of the same mesh with %s coordinates raised %s" % (fname, type(e).__name__), {"msg": str(e)[:100]}, None))
+            continue
+        if not same_geom:
+            bad.append(("the same mesh with its coordinates stored as %s has other areas / edge lengths / normals" % fname, {}, None))
+    # grid meshes built from a depth image: a MASKED depth image gives the mesh of the unmasked one masked afterwards - vertices,
+    # triangles and the per-vertex colours handed to the constructor
+    if o["case"]["mesh"] == "grid23":
+        import menpo.shape as ms
+        from menpo.image import Image, MaskedImage
+
+        depth = np.arange(12.0).reshape(1, 3, 4) * 0.5
+        gm = np.ones((3, 4), dtype=bool)
+        gm[0, 0] = gm[2, 3] = False
+        col = np.stack([np.arange(12) / 12.0, 1 - np.arange(12) / 12.0, np.full(12, 0.25)], axis=1)
+        for cname, kw in (("TriMesh", {}), ("ColouredTriMesh", {"colours": col})):
+            cls = getattr(ms, cname)
+            try:
+                a_ = cls.init_from_depth_image(MaskedImage(depth.copy(), mask=gm.copy()), **{k: v.copy() for k, v in kw.items()})
+                b_ = cls.init_from_depth_image(Image(depth.copy()), **{k: v.copy() for k, v in kw.items()}).from_mask(gm.ravel())
+            except Exception as e:
+                bad.append(("%s.init_from_depth_image raised %s" % (cname, type(e).__name__), {"msg": str(e)[:100]}, None))
+                continue
+            if not np.array_equal(a_.points, b_.points) or not np.array_equal(np.asarray(a_.trilist, dtype=int), np.asarray(b_.trilist, dtype=int)):
+                bad.append(("%s.init_from_depth_image of a masked image is not the mesh of the unmasked image masked afterwards" % cname, {}, None))
+            elif kw and (a_.colours.shape != b_.colours.shape or not np.array_equal(a_.colours, b_.colours)):
+                bad.append(("%s.init_from_depth_image(masked image, colours=...) does not carry the given colours of the kept vertices" % cname, {}, None))
     # invariances under rigid motion / uniform scaling, evaluated in the real code
     for t, sc in _motions(d):
         m2 = t.apply(mesh)
